@@ -178,7 +178,7 @@ def run(ctx, host=None):
     # rules of other properties that are necessary conditions of this one too: durability of what was synced assumes packs are append-only (C13)
     if host is None:
         from ..report import host_modules
-        host_modules(chk, ctx, ['C13'])
+        host_modules(chk, ctx, ['C13', 'C05'])
 
     return chk.finish(
         explanation=('Static typestate analysis on inlined control-flow graphs: durability facts (volatile/durable) per file, '
